@@ -705,6 +705,54 @@ def h_queue_capacity_starvation(i):
     return {"reproduced": failed, "observed": lines[-4:], "expected": "6 of 6 tasks running simultaneously (max_workers=6, enough pending work)"}
 
 
+_F12_PROG = 'import os, sys, time, threading, glob\nsys.path.insert(0, "/repo")\nfrom loky.process_executor import ProcessPoolExecutor\ndef counts():\n    return {"threads": threading.active_count(), "fds": len(os.listdir("/proc/self/fd")), "sems": len(glob.glob(f"/dev/shm/sem.loky-{os.getpid()}-*"))}\ndef lifecycle():\n    ex = ProcessPoolExecutor(max_workers=1)\n    ex.submit(int, 0).result()\n    f1 = ex.submit(time.sleep, 100)\n    time.sleep(0.3)\n    f2 = ex.submit(len, b"x" * (8 * 1024 * 1024))\n    time.sleep(0.5)\n    ex.shutdown(wait=True, kill_workers=True)\n    del ex, f1, f2\nif __name__ == "__main__":\n    lifecycle(); import gc; gc.collect(); time.sleep(1)\n    c0 = counts(); print("after 1:", c0)\n    for _ in range(3):\n        lifecycle(); gc.collect(); time.sleep(1)\n    c1 = counts(); print("after 4:", c1)\n    print("threads:", [t.name for t in threading.enumerate()])\n    ok = c1 == c0\n    print("PASS" if ok else "FAIL: resources accumulate")\n    os._exit(0 if ok else 1)\n'
+
+
+def h_feeder_left_behind(i):
+    """F12: four lifecycles shutdown(kill_workers=True) while the feeder thread is blocked sending an 8 MB task to the only, busy worker: threads, descriptors and
+    named semaphores of the parent must be the same after the fourth lifecycle as after the first."""
+    import subprocess
+    import tempfile
+    repo = sys.argv[3] if len(sys.argv) > 3 else "/repo"
+    with tempfile.TemporaryDirectory(prefix="f12-") as td:
+        path = os.path.join(td, "prog.py")
+        with open(path, "w") as fh:
+            fh.write(_F12_PROG.replace('"/repo"', repr(repo)))
+        out = os.path.join(td, "out.txt")
+        with open(out, "w") as fo:
+            try:
+                subprocess.run([sys.executable, path], stdout=fo, stderr=subprocess.DEVNULL, stdin=subprocess.DEVNULL, timeout=150, start_new_session=True)
+            except subprocess.TimeoutExpired:
+                pass
+        lines = [l for l in open(out, errors="replace").read().splitlines() if l and "leaked" not in l]
+    failed = any(l.startswith("FAIL") for l in lines) or not any(l.startswith("PASS") for l in lines)
+    return {"reproduced": failed, "observed": lines[-4:], "expected": "the same numbers of threads, descriptors and semaphores after 1 and after 4 killed lifecycles"}
+
+
+_F13_PROG = 'import os, sys, time, threading, warnings\nsys.path.insert(0, "/repo")\nwarnings.simplefilter("ignore")\nfrom loky.process_executor import ProcessPoolExecutor\ndef init():\n    import loky.process_executor as pe\n    pe._MAX_MEMORY_LEAK_SIZE = 0          # every memory check finds a "leak": the worker leaves cleanly after announcing its pid\n    pe._MEMORY_LEAK_CHECK_DELAY = 0.2\ndef work(i):\n    import time\n    x = [0] * 200000\n    time.sleep(0.4)\n    return i\nif __name__ == "__main__":\n    errs = []\n    threading.excepthook = lambda a: errs.append((a.thread.name, a.exc_type.__name__, str(a.exc_value)[:80]))\n    ex = ProcessPoolExecutor(max_workers=1, initializer=init)\n    futs = [ex.submit(work, i) for i in range(12)]\n    mode = sys.argv[1] if len(sys.argv) > 1 else "nowait"\n    if mode == "nowait":\n        ex.shutdown(wait=False)           # the executor object stays referenced by `ex`\n    res = []\n    for f in futs:\n        try:\n            res.append(f.result(timeout=6))\n        except Exception as e:\n            res.append(type(e).__name__)\n    print("results:", res)\n    print("manager thread errors:", errs)\n    ok = res == list(range(12)) and not errs\n    print("PASS" if ok else "FAIL")\n    os._exit(0 if ok else 1)\n'
+
+
+def h_respawn_after_shutdown_nowait(i):
+    """F13: 12 tasks on a one-worker pool whose workers leave cleanly after every memory check (the memory-leak guard, same exit as an idle time-out);
+    shutdown(wait=False) is called right after the submissions and the executor stays referenced: every task must still complete."""
+    import subprocess
+    import tempfile
+    repo = sys.argv[3] if len(sys.argv) > 3 else "/repo"
+    with tempfile.TemporaryDirectory(prefix="f13-") as td:
+        path = os.path.join(td, "prog.py")
+        with open(path, "w") as fh:
+            fh.write(_F13_PROG.replace('"/repo"', repr(repo)))
+        out = os.path.join(td, "out.txt")
+        with open(out, "w") as fo:
+            try:
+                subprocess.run([sys.executable, path, "nowait"], stdout=fo, stderr=subprocess.DEVNULL, stdin=subprocess.DEVNULL, timeout=170, start_new_session=True)
+            except subprocess.TimeoutExpired:
+                pass
+        lines = [l for l in open(out, errors="replace").read().splitlines() if l and "leaked" not in l]
+    failed = any(l.startswith("FAIL") for l in lines) or not any(l.startswith("PASS") for l in lines)
+    return {"reproduced": failed, "observed": [l[:300] for l in lines[-3:]], "expected": "results 0..11 and no exception in the manager thread"}
+
+
 def main():
     name, inputs, repo = sys.argv[1], json.loads(sys.argv[2]), sys.argv[3]
     sys.path.insert(0, repo)
